@@ -21,6 +21,8 @@ fn pool() -> Vec<RMap> {
         RMap { ignore: vec![1], contents: vec![None, Some("LIB".into())], ..m(&["a", "lib"], vec![RTok::new(0, 1, Some((1, 0, 0, None))), RTok::new(0, 2, Some((0, 0, 0, None)))]) },
         m(&["a"], vec![RTok { gl: 0, gc: 0, src: Some((0, 0, 10, None)), range: true }, RTok { gl: 1, gc: 1, src: Some((0, 1, 20, Some(0))), range: true }]),
         RMap { root: Some("r/".into()), ..m(&["x"], vec![RTok::new(0, 2, None), RTok::new(0, 3, Some((0, 9, 9, None)))]) },
+        // the same source names as other pool maps, with different contents
+        RMap { contents: vec![Some("OTHER-A".into()), Some("OTHER-B".into())], ..m(&["a", "b"], vec![RTok::new(0, 1, Some((1, 3, 3, None))), RTok::new(0, 2, Some((0, 4, 4, Some(1))))]) },
     ]
 }
 
@@ -307,7 +309,7 @@ pub fn run(run: &mut Run) -> Finish {
         let combos = np.pow(n as u32);
         // special variants: none, or one slot replaced by {nested index, Hermes, url-only}
         let specials = 1 + 3 * n as u64;
-        run.par_slice(&format!("{n} section(s): every strictly increasing offset choice over 6 offsets x every assignment of the 8-map pool x {{plain, one slot nested index / Hermes / url-only}}, constructed and decoded, query grid around every offset"), slice_no, no * combos * specials, |idx, l| {
+        run.par_slice(&format!("{n} section(s): every strictly increasing offset choice over 6 offsets x every assignment of the 9-map pool x {{plain, one slot nested index / Hermes / url-only}}, constructed and decoded, query grid around every offset"), slice_no, no * combos * specials, |idx, l| {
             let k = idx & ((1 << 40) - 1);
             let d = mixed_radix(k, &[specials, combos, no]);
             let picks = seq_of(d[1], np, n);
